@@ -138,8 +138,21 @@ func (f *FM) corpusField() {
 	entries := loadCorpus("field")
 	stored := func(v *big.Int) *big.Int { return mulmod(new(big.Int).Mod(v, bigP), rInvP, bigP) }
 	n := 0
+	arity := map[string]int{"Mul": 2, "Add": 2, "Sub": 2, "Square": 1, "Opp": 1, "FromMontgomery": 1, "ToMontgomery": 1, "Reduce": 1, "Selectznz": 2}
 	for _, e := range entries {
 		as := e.arrays()
+		if k, known := arity[e.Func]; !known || len(as) < k {
+			continue
+		}
+		if e.Func != "Reduce" && e.Func != "ToMontgomery" {
+			bad := false
+			for _, a := range as {
+				bad = bad || a.Cmp(bigP) >= 0
+			}
+			if bad {
+				continue
+			}
+		}
 		if n%20 == 0 {
 			f.reset()
 		}
